@@ -30,6 +30,50 @@ def dump(path):
     return recs
 
 
+def with_ties(data, group, swap_every=0):
+    """The same event log with records of EQUAL creation time: in stored order, groups of `group` consecutive records get
+    the creation time of the group's first record (whole microseconds), in the record header and in the record body
+    (<TimeCreated SystemTime>); a record the file stores out of order is left as it is.  swap_every > 0: in addition
+    every swap_every-th group takes the time of the group BEFORE it (so a whole group is stored out of order).
+    Chunk checksums are not recomputed (the evtx crate does not verify them unless asked to)."""
+    import struct
+    data = bytearray(data)
+    recs = []
+    for c in range((len(data) - 4096) // 65536):
+        base = 4096 + c * 65536
+        ch = data[base:base + 65536]
+        if ch[:8] != b"ElfChnk\0":
+            continue
+        free = struct.unpack_from("<I", ch, 48)[0]
+        off = 512
+        while off < free and ch[off:off + 4] == b"\x2a\x2a\0\0":
+            size, rid, ft = struct.unpack_from("<IQQ", ch, off + 4)
+            recs.append((base + off, size, ft))
+            off += size
+    n_in, ft_group, prev, gno, ft_prev_group = 0, None, None, 0, None
+    for off, size, ft in recs:
+        ooo = prev is not None and ft < prev
+        prev = ft
+        if ooo:
+            ft_new, n_in = ft, 0
+        else:
+            if n_in == 0 or ft_group is None:
+                ft_prev_group, ft_group = ft_group, ft - ft % 10
+                gno += 1
+                if swap_every and gno % swap_every == 0 and ft_prev_group is not None:
+                    ft_group = ft_prev_group - 10 * 1000 * 1000      # one second before the group stored ahead of it
+            ft_new = ft_group
+            n_in = (n_in + 1) % group
+        old, new = struct.pack("<Q", ft), struct.pack("<Q", ft_new)
+        body = bytes(data[off + 24:off + size])
+        if data[off + 16:off + 24] != old or body.count(old) != 1:
+            return None
+        data[off + 16:off + 24] = new
+        q = body.find(old)
+        data[off + 24 + q:off + 24 + q + 8] = new
+    return bytes(data)
+
+
 def cli(secs, nanos):
     return gen.fmt_ts(secs, nanos, None, 6)
 
@@ -137,13 +181,63 @@ def run(pid, tier, seed):
                     rep.violation("trace:%s" % tr.violated, "recorded run violates %s" % tr.violated, rec)
                 else:
                     rep.note_drift("evtx%s trace not explained at event %s: %s" % (form, first, recs_t[first - 1] if first and first <= len(recs_t) else None))
+        # ---- the same event log with records of equal creation time (the only non-empty .evtx available has none):
+        #      "records of equal time kept in file order", also at the bounds of a window
+        tie_runs = tie_files = 0
+        for vi, (group, swap) in enumerate([(3, 0), (2, 7), (5, 4)] if tier == "quick" else [(3, 0), (2, 7), (5, 4), (2, 0), (4, 3), (10, 2), (40, 0)]):
+            tb = with_ties(evb, group, swap)
+            if tb is None:
+                rep.note("the sample .evtx could not be rewritten with equal times (layout not as expected): tie variants skipped")
+                break
+            td = os.path.join(sc, "ties%d" % vi)
+            os.makedirs(td)
+            gen.write(os.path.join(td, "t.evtx"), tb)
+            gen.write(os.path.join(td, "t.evtx.gz"), gen.gz_bytes(tb))
+            try:
+                trecs = dump(os.path.join(td, "t.evtx"))
+            except ToolError:
+                rep.note("evtx_dump does not read the rewritten event log: tie variants skipped")
+                break
+            tie_files += 1
+            temit = sorted(trecs, key=lambda x: ((x["secs"], x["nanos"]), x["idx"]))
+            allk = [(x["secs"], x["nanos"]) for x in trecs]
+            tinst = sorted({k_ for k_ in allk if allk.count(k_) > 1})
+            if not tinst:
+                raise ToolError("rewritten event log holds no equal times")
+            twins = [(None, None)]
+            for p_ in rng.sample(tinst, min(len(tinst), 4 if tier == "quick" else 25)):
+                twins += [(p_, None), (None, p_), (p_, p_)]
+            tjobs = [(f_, a_, b_) for f_ in ("t.evtx", "t.evtx.gz") for (a_, b_) in (twins if f_ == "t.evtx" else twins[:4])]
+
+            def tdo(job):
+                f_, a_, b_ = job
+                tmp_ = os.path.join(td, "tmp-%s-%d" % (f_, tjobs.index(job)))
+                os.makedirs(tmp_)
+                return common.run_s4(["--color", "never"] + gen.window_argv(a_, b_, gen.WINDOW_SPELLINGS[0]) + [f_], cwd=td, tmpdir=tmp_,
+                                     timeout=120, tz_args=False)
+            with ThreadPoolExecutor(max_workers=8) as ex:
+                truns = list(ex.map(tdo, tjobs))
+            for (f_, a_, b_), rr in zip(tjobs, truns):
+                tie_runs += 1
+                want = [x["id"] for x in temit if (a_ is None or (x["secs"], x["nanos"]) >= a_) and (b_ is None or (x["secs"], x["nanos"]) <= b_)]
+                got = [int(x) for x in RID.findall(rr.out)]
+                rec = {"kind": "c10-ties", "file": f_, "group": group, "swap_every": swap, "after": a_, "before": b_, "rc": rr.rc,
+                       "got_head": got[:24], "want_head": want[:24]}
+                if rr.crashed:
+                    rep.violation("crash:ties", "rc=%s" % rr.rc, rec)
+                elif got != want:
+                    sig = "order" if sorted(got) == sorted(want) else "selection"
+                    rep.violation("%s:ties" % sig, "%s with records of equal creation time (groups of %d), window [%s, %s]: printed %d records, "
+                                  "expected %d; first difference at position %d" % (f_, group, a_, b_, len(got), len(want),
+                                  next((q for q in range(min(len(got), len(want))) if got[q] != want[q]), min(len(got), len(want)))), rec)
         rep.coverage = {"states": r.distinct, "transitions": r.generated, "traces_validated_against_impl": accepted,
-                        "evaluations": len(runs), "distinct_nontrivial": on_time,
+                        "evaluations": len(runs) + tie_runs, "distinct_nontrivial": on_time, "equal_time_variants": tie_files, "equal_time_runs": tie_runs,
                         "rule": "one evaluation = one run of the binary on the .evtx file (or a compressed form) with one window; "
                                 "non-trivial = a bound exactly equal to a record's creation time",
                         "samples": samples, "records": len(recs), "inversions_in_file": sum(
                             1 for i in range(len(recs) - 1) if (recs[i]["secs"], recs[i]["nanos"]) > (recs[i + 1]["secs"], recs[i + 1]["nanos"])),
                         "exhaustive": False, "checker_cmd": r.cmd}
-        rep.assumptions = ["only one non-empty .evtx file exists in the sandbox (227 records, one stored out of order, no equal "
-                           "times); ties are covered by the model only", "ground truth from the evtx crate used independently"]
+        rep.assumptions += ["only one non-empty .evtx file exists in the sandbox (227 records, one stored out of order, no equal "
+                           "times); equal times are produced by rewriting its FILETIME fields (header and body) in groups, chunk "
+                           "checksums left as they are", "ground truth from the evtx crate used independently"]
     return rep.finish()
